@@ -40,7 +40,11 @@ type (
 		Vars   []SVar
 		Body   SExpr
 	}
-	SOld struct{ X SExpr }
+	SOld struct {
+		X     SExpr
+		Entry bool // $entry(e) / $entryN(e): loop-entry snapshot
+		Ord   int
+	}
 	SRaw struct { // smt("...{0}...", args...) : sort given by type
 		T    *SType
 		Tmpl string
@@ -539,7 +543,17 @@ func (p *parser) postfix() (SExpr, error) {
 				return nil, err
 			}
 			if id, ok := x.(*SIdent); ok && id.Name == "old" && len(args) == 1 {
-				x = &SOld{args[0]}
+				x = &SOld{X: args[0], Ord: -1}
+			} else if ok && strings.HasPrefix(id.Name, "$entry") && len(args) == 1 {
+				ord := -1
+				if rest := id.Name[len("$entry"):]; rest != "" {
+					n, err := strconv.Atoi(rest)
+					if err != nil {
+						return nil, fmt.Errorf("bad %s", id.Name)
+					}
+					ord = n
+				}
+				x = &SOld{X: args[0], Entry: true, Ord: ord}
 			} else {
 				x = &SCall{x, args}
 			}
